@@ -1,8 +1,1628 @@
-//! C09 - not built yet
+//! C09 - receiver link credit: accurate accounting, enforcement and replenishment.
+//!
+//! The real `Receiver` (client side: `Receiver::builder().credit_mode(..).attach`; listener side: the
+//! receiver handed out by `LinkAcceptor::accept`) is driven against a scripted peer that plays the
+//! SENDING end of the link.  Two exhaustive stages, both executed on the real stack:
+//!
+//!  * history search: every history of the stated depth over an alphabet of sender events (transfer
+//!    within credit / up to the limit / one beyond the limit / multi-frame / pre-settled / a flow carrying
+//!    the sender's delivery-count) and application events (recv one / recv all / accept oldest / accept
+//!    newest / accept_all / accept through a `ReceiverDisposer` / set_credit / drain), per credit policy;
+//!  * long streams: for Auto(n) every combination of disposal discipline x sender style, a
+//!    credit-respecting sender that sends whenever it has credit must get 5n+3 messages through.
+//!
+//! The monitor keeps the three clauses of the statement apart (signatures start with c1 / c2 / c3):
+//!  c1  every link flow the receiver emits carries delivery-count = the value last learnt from the sender
+//!      (attach or flow) + the deliveries received since, and a link-credit value;
+//!  c2  a delivery beyond the credit issued is never returned by `recv()`; it is refused as a
+//!      transfer-limit violation;
+//!  c3  Auto(n): a sender that respects credit never stalls (and is never refused) as long as the
+//!      application keeps receiving and disposing.
+use fe2o3_amqp::acceptor::{ConnectionAcceptor, LinkAcceptor, LinkEndpoint, SessionAcceptor};
+use fe2o3_amqp::link::delivery::DeliveryInfo;
+use fe2o3_amqp::link::{CreditMode, RecvError};
+use fe2o3_amqp::{Connection, Receiver, ReceiverDisposer, Session};
+use fe2o3_amqp_types::definitions::{Handle, ReceiverSettleMode, Role, SenderSettleMode};
+use fe2o3_amqp_types::messaging::message::__private::Serializable;
+use fe2o3_amqp_types::messaging::{Message, Source, Target};
+use fe2o3_amqp_types::performatives::*;
+use fe2o3_amqp_types::primitives::Value;
+use serde_json::json;
+use std::sync::Arc;
+use std::time::{Duration, Instant};
+use vlib::history::{search, HistOut};
+use vlib::peer::{drive, settle, Auto, Body, Dirn, Peer, WFrame, AMQP_HEADER};
 use vlib::report::{Ctx, Outcome};
+use vlib::runner::{run_exec, RunCfg, Scenario};
+use vlib::util::{h64, par_map};
+use vlib::vpipe::Pipe;
 
-pub fn run(_ctx: &Ctx) -> Outcome {
+// ------------------------------------------------------------------------------------------------
+// configuration
+// ------------------------------------------------------------------------------------------------
+
+#[derive(Debug, Clone, Copy, PartialEq, Eq, Hash)]
+pub enum Side {
+    Client,
+    Listener,
+}
+
+#[derive(Debug, Clone, Copy, PartialEq, Eq, Hash)]
+pub enum Policy {
+    Auto(u32),
+    Manual,
+}
+
+impl Policy {
+    fn name(&self) -> String {
+        match self {
+            Policy::Auto(n) => format!("Auto({n})"),
+            Policy::Manual => "Manual".into(),
+        }
+    }
+    fn parse(s: &str) -> Option<Policy> {
+        if s == "Manual" {
+            return Some(Policy::Manual);
+        }
+        s.strip_prefix("Auto(")?.strip_suffix(')')?.parse().ok().map(Policy::Auto)
+    }
+}
+
+#[derive(Debug, Clone, Copy, PartialEq, Eq, Hash)]
+pub struct Cfg {
+    pub side: Side,
+    pub policy: Policy,
+    /// initial-delivery-count announced by the scripted sender
+    pub idc: u32,
+}
+
+#[derive(Debug, Clone, Copy, PartialEq, Eq, Hash)]
+pub enum Ev {
+    /// one single-frame unsettled delivery, sender has credit
+    TxOne,
+    /// as many deliveries as the sender has credit for (reaches the limit exactly); credit >= 2
+    TxLimit,
+    /// one delivery although the sender has no credit (one beyond the limit)
+    TxOver,
+    /// one delivery in three transfer frames, sender has credit
+    TxMulti,
+    /// one pre-settled delivery, sender has credit
+    TxSettled,
+    /// the sender sends a link flow with its current delivery-count (echo=true).  If the receiver asked
+    /// to drain, the sender first advances its delivery-count over the unused credit, as the spec says.
+    SFlow,
+    /// application: recv() once (a complete delivery is waiting)
+    Recv,
+    /// application: recv() until nothing is waiting (at least two are waiting)
+    RecvAll,
+    /// application: accept the oldest delivery not yet disposed of
+    AccOld,
+    /// application: accept the newest delivery not yet disposed of (out of order; at least two)
+    AccNew,
+    /// application: accept_all on everything not yet disposed of (at least two)
+    AccAll,
+    /// application: accept the oldest through a ReceiverDisposer
+    AccDisp,
+    /// Manual only: set_credit(1)
+    SetCreditLo,
+    /// Manual only: set_credit(3)
+    SetCreditHi,
+    /// Manual only: drain()
+    Drain,
+}
+
+pub const FULL: [Ev; 15] = [
+    Ev::TxOne,
+    Ev::Recv,
+    Ev::AccOld,
+    Ev::TxLimit,
+    Ev::TxOver,
+    Ev::SFlow,
+    Ev::RecvAll,
+    Ev::AccAll,
+    Ev::AccNew,
+    Ev::AccDisp,
+    Ev::TxMulti,
+    Ev::TxSettled,
+    Ev::SetCreditLo,
+    Ev::SetCreditHi,
+    Ev::Drain,
+];
+/// the core of the alphabet (used for the deepest level)
+pub const CORE: [Ev; 8] = [Ev::TxOne, Ev::Recv, Ev::AccOld, Ev::TxLimit, Ev::TxOver, Ev::SFlow, Ev::RecvAll, Ev::AccAll];
+
+/// the core for Manual links (credit exists only after a set_credit)
+pub const CORE_MANUAL: [Ev; 9] = [Ev::SetCreditHi, Ev::TxOne, Ev::Recv, Ev::TxLimit, Ev::TxOver, Ev::SFlow, Ev::RecvAll, Ev::SetCreditLo, Ev::Drain];
+
+const LO: u32 = 1;
+const HI: u32 = 3;
+
+// ------------------------------------------------------------------------------------------------
+// monitor
+// ------------------------------------------------------------------------------------------------
+
+#[derive(Debug, Clone, Copy, PartialEq, Eq, Hash)]
+enum DState {
+    Queued,
+    Handed,
+    Rejected,
+}
+
+#[derive(Debug, Clone)]
+struct Sent {
+    /// sender's delivery-count before this delivery
+    dc_before: u32,
+    /// index of the newest receiver flow the sender had seen when it sent this delivery
+    flow_at_send: usize,
+    frames: u8,
+    settled: bool,
+    st: DState,
+}
+
+#[derive(Debug, Clone)]
+struct RFlow {
+    dc: u32,
+    credit: u32,
+    drain: bool,
+    /// number of deliveries handed to the application when this flow was emitted
+    handed_at: usize,
+}
+
+impl RFlow {
+    fn limit(&self) -> u32 {
+        self.dc.wrapping_add(self.credit)
+    }
+}
+
+/// what the harness did in the step during which a receiver flow appeared
+#[derive(Debug, Clone, Copy, PartialEq, Eq)]
+enum Cause {
+    /// attach of an Auto(n) link / disposal in Auto mode: a new grant of the library's choosing
+    Grant,
+    SetCredit(u32),
+    /// echo requested by the sender, drain(): no new grant, the current credit is reported
+    Report,
+    /// nothing that asks for a flow
+    Spontaneous,
+}
+
+/// a < b in RFC 1982 serial-number arithmetic
+fn serial_lt(a: u32, b: u32) -> bool {
+    (b.wrapping_sub(a) as i32) > 0
+}
+
+#[derive(Debug, Default, Clone)]
+pub struct Counters {
+    pub rflows_checked: u64,
+    pub topups: u64,
+    pub limit_reached: u64,
+    pub overruns_sent: u64,
+    pub overruns_refused: u64,
+    pub handed: u64,
+    pub multi_handed: u64,
+    pub settled_handed: u64,
+    pub dispositions: u64,
+    pub sflows_with_queue: u64,
+    pub stall_checks: u64,
+    pub out_of_order_accepts: u64,
+}
+
+impl Counters {
+    fn add(&mut self, o: &Counters) {
+        self.rflows_checked += o.rflows_checked;
+        self.topups += o.topups;
+        self.limit_reached += o.limit_reached;
+        self.overruns_sent += o.overruns_sent;
+        self.overruns_refused += o.overruns_refused;
+        self.handed += o.handed;
+        self.multi_handed += o.multi_handed;
+        self.settled_handed += o.settled_handed;
+        self.dispositions += o.dispositions;
+        self.sflows_with_queue += o.sflows_with_queue;
+        self.stall_checks += o.stall_checks;
+        self.out_of_order_accepts += o.out_of_order_accepts;
+    }
+    fn json(&self) -> serde_json::Value {
+        json!({
+            "receiver_flows_judged": self.rflows_checked,
+            "credit_top_ups_seen": self.topups,
+            "states_with_sender_credit_exhausted": self.limit_reached,
+            "overrun_deliveries_sent": self.overruns_sent,
+            "overrun_deliveries_refused_by_recv": self.overruns_refused,
+            "deliveries_returned_by_recv": self.handed,
+            "multi_frame_deliveries_returned": self.multi_handed,
+            "pre_settled_deliveries_returned": self.settled_handed,
+            "disposition_frames_seen": self.dispositions,
+            "sender_flows_sent_while_deliveries_waited_in_the_link": self.sflows_with_queue,
+            "auto_stall_obligations_evaluated": self.stall_checks,
+            "out_of_order_accepts": self.out_of_order_accepts,
+        })
+    }
+}
+
+struct Mon {
+    cfg: Cfg,
+    lib_ch: u16,
+    lib_handle: u32,
+    snd_dc: u32,
+    sent: Vec<Sent>,
+    /// index 0 is the state before any flow: (initial-delivery-count, credit 0)
+    rflows: Vec<RFlow>,
+    /// last delivery-count the receiver learnt from the sender and how many deliveries the sender had sent by then
+    base_val: u32,
+    base_sent: usize,
+    base_is_flow: bool,
+    handed: usize,
+    /// the peer broke the protocol and the library said so: nothing further is judged
+    poisoned: bool,
+    over_sent: bool,
+    sflow_over_queue: bool,
+    detach_conditions: Vec<String>,
+    session_or_connection_ended: bool,
+    cursor: usize,
+    fails: Vec<(String, String)>,
+    cnt: Counters,
+}
+
+impl Mon {
+    fn new(cfg: Cfg, lib_ch: u16, lib_handle: u32) -> Self {
+        Mon {
+            cfg,
+            lib_ch,
+            lib_handle,
+            snd_dc: cfg.idc,
+            sent: vec![],
+            rflows: vec![RFlow { dc: cfg.idc, credit: 0, drain: false, handed_at: 0 }],
+            base_val: cfg.idc,
+            base_sent: 0,
+            base_is_flow: false,
+            handed: 0,
+            poisoned: false,
+            over_sent: false,
+            sflow_over_queue: false,
+            detach_conditions: vec![],
+            session_or_connection_ended: false,
+            cursor: 0,
+            fails: vec![],
+            cnt: Counters::default(),
+        }
+    }
+
+    fn fail(&mut self, sig: &str, detail: String) {
+        // histories in which the sender reported its delivery-count while deliveries it had already counted
+        // were still waiting inside the link get their own class, so that a defect reachable only that
+        // way does not hide anything else
+        let tag = if self.sflow_over_queue { "sender-flow-over-waiting-deliveries: " } else { "" };
+        self.fails.push((format!("{tag}{sig} [{:?}]", self.cfg.side), detail));
+    }
+
+    /// the sender's link-credit by the formula of the spec (2.6.7):
+    /// link-credit_snd := delivery-count_rcv + link-credit_rcv - delivery-count_snd
+    fn snd_credit(&self) -> u32 {
+        let lim = self.rflows.last().unwrap().limit();
+        if serial_lt(self.snd_dc, lim) {
+            lim.wrapping_sub(self.snd_dc)
+        } else {
+            0
+        }
+    }
+
+    fn queued(&self) -> usize {
+        self.sent.iter().filter(|s| s.st == DState::Queued).count()
+    }
+
+    /// judge every frame the library wrote since the last call
+    fn absorb(&mut self, trace: &[WFrame], cause: Cause) {
+        while self.cursor < trace.len() {
+            let w = &trace[self.cursor];
+            self.cursor += 1;
+            if w.dir != Dirn::FromLib {
+                continue;
+            }
+            match &w.body {
+                Body::Perf(Performative::Flow(f)) if w.channel == self.lib_ch && f.handle.as_ref().map(|h| h.0) == Some(self.lib_handle) => {
+                    self.on_rflow(f, cause);
+                }
+                Body::Perf(Performative::Detach(d)) if w.channel == self.lib_ch && d.handle.0 == self.lib_handle => {
+                    self.detach_conditions.push(d.error.as_ref().map(|e| format!("{:?}", e.condition)).unwrap_or_else(|| "none".into()));
+                }
+                Body::Perf(Performative::Disposition(_)) => self.cnt.dispositions += 1,
+                Body::Perf(Performative::End(_)) | Body::Perf(Performative::Close(_)) => self.session_or_connection_ended = true,
+                _ => {}
+            }
+        }
+    }
+
+    fn on_rflow(&mut self, f: &Flow, cause: Cause) {
+        if self.poisoned {
+            // after a protocol violation by the peer the two ends no longer agree on the count; the
+            // statement says nothing about flows sent then
+            return;
+        }
+        self.cnt.rflows_checked += 1;
+        let shown = format!(
+            "flow(delivery-count={:?}, link-credit={:?}, drain={}, echo={})",
+            f.delivery_count, f.link_credit, f.drain, f.echo
+        );
+        // ---------------- clause 1, delivery-count
+        // The scripted sender reports every change of its delivery-count that is not a transfer at once
+        // (SFlow), and the system is quiescent, so "the value last learnt from the sender advanced by the
+        // deliveries received since" is the sender's current delivery-count - IF a delivery counts as
+        // received when its last frame reaches the link.  An implementation may just as well count a
+        // delivery when recv() hands it over (this one does); then the deliveries still waiting inside the
+        // link are not yet "received", including those the sender had already counted in the value it
+        // reported.  Every value between the two readings passes:
+        //     sender's delivery-count - deliveries waiting in the link  <=  reported  <=  sender's delivery-count
+        // What does not pass under either reading is counting a delivery twice or not at all.
+        let waiting = self.queued() as u32;
+        let hi = self.snd_dc;
+        let lo = hi.wrapping_sub(waiting);
+        debug_assert_eq!(self.base_val.wrapping_add((self.sent.len() - self.base_sent) as u32), self.snd_dc);
+        let learnt = if self.base_is_flow { "flow" } else { "attach" };
+        match f.delivery_count {
+            None => self.fail(
+                "c1 flow-without-delivery-count",
+                format!("the receiver sent {shown} without a delivery-count although the sender announced {} ({learnt})", self.base_val),
+            ),
+            Some(dc) => {
+                if dc.wrapping_sub(lo) > waiting {
+                    let dir = if serial_lt(hi, dc) { "ahead" } else { "behind" };
+                    self.fail(
+                        &format!("c1 delivery-count-mismatch learnt-from={learnt} {dir}"),
+                        format!(
+                            "the receiver sent {shown}; the last delivery-count it learnt from the sender is {} (from the sender's {learnt}), \
+                             the sender has sent {} complete deliveries after that, recv() has returned {} deliveries in all and {waiting} are waiting in the link: \
+                             the sender's delivery-count is {hi}, expected a value in {lo}..={hi}",
+                            self.base_val,
+                            self.sent.len() - self.base_sent,
+                            self.handed,
+                        ),
+                    );
+                }
+            }
+        }
+        // ---------------- clause 1, credit
+        // "the credit it intends to grant": only what the application asked for by name is demanded
+        // (set_credit(k) => k).  A flow that merely reports (echo / drain, or anything in Manual mode that
+        // the application did not ask for) must report the credit still outstanding, counted either way
+        // (at arrival or at hand-over).  A new grant in Auto mode may be any amount: what it has to be
+        // good for is judged by clauses 2 and 3.
+        let last = self.rflows.last().unwrap().clone();
+        match f.link_credit {
+            None => self.fail("c1 flow-without-link-credit", format!("the receiver sent {shown} without link-credit")),
+            Some(c) => match cause {
+                Cause::SetCredit(k) => {
+                    if c != k {
+                        self.fail("c1 credit-field-mismatch set_credit", format!("set_credit({k}) was answered with {shown}"));
+                    }
+                }
+                Cause::Grant => {
+                    self.cnt.topups += 1;
+                }
+                Cause::Report | Cause::Spontaneous => {
+                    if cause == Cause::Report || self.cfg.policy == Policy::Manual {
+                        let lib_view = last.credit.saturating_sub((self.handed - last.handed_at) as u32);
+                        let wire_view = self.snd_credit();
+                        let (lo, hi) = (lib_view.min(wire_view), lib_view.max(wire_view));
+                        if c < lo || c > hi {
+                            self.fail(
+                                "c1 credit-field-mismatch report",
+                                format!(
+                                    "the receiver sent {shown} without a new grant being asked for; the credit outstanding is {lo}..={hi} \
+                                     (last flow granted {}, {} deliveries returned since, sender-side credit {wire_view})",
+                                    last.credit,
+                                    self.handed - last.handed_at
+                                ),
+                            );
+                        }
+                    } else {
+                        self.cnt.topups += 1;
+                    }
+                }
+            },
+        }
+        self.rflows.push(RFlow {
+            dc: f.delivery_count.unwrap_or(self.cfg.idc),
+            credit: f.link_credit.unwrap_or(0),
+            drain: f.drain,
+            handed_at: self.handed,
+        });
+    }
+
+    /// Is delivery `i` - the next one recv() would hand over - inside the credit of (any, all) flows the
+    /// receiver had issued between the moment the delivery was sent and now?  (DESIGN 2.7: most permissive
+    /// view.)  Each flow is read in both ways an implementation may mean it:
+    ///  * wire reading: the sender may send while its delivery-count is below delivery-count+credit of the
+    ///    flow - compared with the sender's count when it sent the delivery;
+    ///  * hand-over reading (count at recv()): the flow's credit is the number of deliveries the receiver is
+    ///    still prepared to hand over - compared with the number handed over since the flow.
+    /// The two differ when credit is lowered, or the sender's count jumps (drain), while deliveries wait
+    /// inside the link.  A delivered delivery is an overrun only if NO reading of NO flow covers it; a
+    /// refusal is unjustified only if EVERY reading of EVERY flow covers the delivery.
+    fn within(&self, i: usize) -> (bool, bool) {
+        let s = &self.sent[i];
+        let w = &self.rflows[s.flow_at_send..];
+        let wire = |f: &RFlow| serial_lt(s.dc_before, f.limit());
+        let hand_over = |f: &RFlow| ((self.handed - f.handed_at) as u32) < f.credit;
+        let any = w.iter().any(|f| wire(f) || hand_over(f));
+        let all = w.iter().all(|f| wire(f) && hand_over(f));
+        (any, all)
+    }
+
+    fn note_send(&mut self, frames: u8, settled: bool) -> usize {
+        let over = self.snd_credit() == 0;
+        if over {
+            self.cnt.overruns_sent += 1;
+            self.over_sent = true;
+        }
+        self.sent.push(Sent {
+            dc_before: self.snd_dc,
+            flow_at_send: self.rflows.len() - 1,
+            frames,
+            settled,
+            st: DState::Queued,
+        });
+        self.snd_dc = self.snd_dc.wrapping_add(1);
+        self.sent.len() - 1
+    }
+
+    /// recv() returned delivery number `i`
+    fn on_handed(&mut self, i: usize) {
+        let (any, _) = self.within(i);
+        match self.sent[i].st {
+            DState::Rejected => self.fail(
+                "c2 refused-delivery-delivered-later",
+                format!("recv() returned delivery m{i} after having refused it as a transfer-limit violation"),
+            ),
+            DState::Handed => self.fail("c2 delivery-returned-twice", format!("recv() returned delivery m{i} twice")),
+            DState::Queued => {}
+        }
+        if !any && !self.poisoned {
+            let s = &self.sent[i];
+            let lims: Vec<String> = self.rflows[s.flow_at_send..].iter().map(|f| format!("{}+{}", f.dc, f.credit)).collect();
+            self.fail(
+                "c2 overrun-delivered",
+                format!(
+                    "recv() returned delivery m{i}, which the sender sent at delivery-count {} although every flow the receiver had issued \
+                     between then and now puts the limit at or below it (delivery-count+credit of those flows: {:?})",
+                    s.dc_before, lims
+                ),
+            );
+        }
+        self.sent[i].st = DState::Handed;
+        self.handed += 1;
+        self.cnt.handed += 1;
+        if self.sent[i].frames > 1 {
+            self.cnt.multi_handed += 1;
+        }
+        if self.sent[i].settled {
+            self.cnt.settled_handed += 1;
+        }
+    }
+
+    /// recv() failed while delivery `i` was the next one waiting
+    fn on_refused(&mut self, i: usize, err: &RecvError) {
+        let (any, all) = self.within(i);
+        let limit_err = matches!(err, RecvError::TransferLimitExceeded);
+        let detach_says_so = self.detach_conditions.iter().any(|c| c.contains("TransferLimitExceeded"));
+        if all && !self.poisoned {
+            let s = &self.sent[i];
+            let lims: Vec<String> = self.rflows[s.flow_at_send..].iter().map(|f| format!("{}+{}", f.dc, f.credit)).collect();
+            self.fail(
+                if limit_err { "c2 within-credit-delivery-refused" } else { "c2 within-credit-delivery-failed" },
+                format!(
+                    "recv() failed with `{err}` on delivery m{i}, which the sender sent at delivery-count {} inside the limit of every flow the \
+                     receiver had issued between then and now (delivery-count+credit of those flows: {:?})",
+                    s.dc_before, lims
+                ),
+            );
+        }
+        if !any {
+            self.cnt.overruns_refused += 1;
+            // "rejecting an overrun as a transfer-limit violation": read permissively, either recv() says
+            // so (RecvError::TransferLimitExceeded) or the link is detached with that condition
+            if !limit_err && !detach_says_so {
+                self.fail(
+                    "c2 overrun-refused-without-transfer-limit-signal",
+                    format!("delivery m{i} was beyond the credit issued; recv() failed with `{err}` and no detach names transfer-limit-exceeded"),
+                );
+            }
+        }
+        self.sent[i].st = DState::Rejected;
+        self.poisoned = true;
+    }
+}
+
+// ------------------------------------------------------------------------------------------------
+// the harness around one real receiver
+// ------------------------------------------------------------------------------------------------
+
+struct Harness {
+    cfg: Cfg,
+    peer: Peer,
+    rx: Receiver,
+    disp: ReceiverDisposer,
+    our_ch: u16,
+    our_handle: u32,
+    next_delivery_id: u32,
+    mon: Mon,
+    undisposed: Vec<(usize, DeliveryInfo)>,
+    log: Vec<String>,
+    log_cursor: usize,
+    _keep: Vec<Box<dyn std::any::Any>>,
+}
+
+fn payload(seq: usize) -> Vec<u8> {
+    let m = Message::builder().value(format!("m{seq}")).build();
+    serde_amqp::to_vec(&Serializable(m)).expect("encode message")
+}
+
+const H: Duration = Duration::from_secs(5);
+const RECV_WAIT: Duration = Duration::from_millis(4);
+
+async fn setup(cfg: Cfg) -> Result<Harness, String> {
+    let (pipe, a, b) = Pipe::new();
+    let mut keep: Vec<Box<dyn std::any::Any>> = vec![Box::new(b)];
+    let mode = match cfg.policy {
+        Policy::Auto(n) => CreditMode::Auto(n),
+        Policy::Manual => CreditMode::Manual,
+    };
+    match cfg.side {
+        Side::Client => {
+            let mut auto = Auto::default();
+            auto.max_frame_size = 4096;
+            auto.initial_delivery_count = cfg.idc;
+            let mut peer = Peer::new(pipe.clone(), 1, auto);
+            let mut conn = drive(&mut peer, Connection::builder().container_id("lib").max_frame_size(4096).open_with_stream(a), H)
+                .await
+                .ok_or("open hangs")?
+                .map_err(|e| format!("open: {e}"))?;
+            let mut sess = drive(&mut peer, Session::begin(&mut conn), H).await.ok_or("begin hangs")?.map_err(|e| format!("begin: {e}"))?;
+            let rx = drive(&mut peer, Receiver::builder().name("r").source("q").credit_mode(mode).attach(&mut sess), H)
+                .await
+                .ok_or("attach hangs")?
+                .map_err(|e| format!("attach: {e}"))?;
+            settle(&mut peer, 2).await;
+            let l = peer.links.first().cloned().ok_or("peer saw no attach")?;
+            let our_ch = peer.our_channel(l.lib_channel);
+            let mut mon = Mon::new(cfg, l.lib_channel, l.lib_handle);
+            // the flow (if any) sent as part of the attach: a grant of the library's choosing
+            mon.absorb(&peer.trace, Cause::Grant);
+            let disp = rx.disposer();
+            keep.push(Box::new(sess));
+            keep.push(Box::new(conn));
+            Ok(Harness {
+                cfg,
+                peer,
+                rx,
+                disp,
+                our_ch,
+                our_handle: l.our_handle,
+                next_delivery_id: 0,
+                mon,
+                undisposed: vec![],
+                log: vec![],
+                log_cursor: 0,
+                _keep: keep,
+            })
+        }
+        Side::Listener => {
+            // scripted client that attaches as the sending end; the library's LinkAcceptor hands out the Receiver
+            let mut auto = Auto::none();
+            auto.max_frame_size = 4096;
+            let mut peer = Peer::new(pipe.clone(), 1, auto);
+            peer.send_proto_header(AMQP_HEADER);
+            peer.send(
+                0,
+                Performative::Open(Open {
+                    container_id: "scripted-client".into(),
+                    hostname: None,
+                    max_frame_size: 4096.into(),
+                    channel_max: 10.into(),
+                    idle_time_out: None,
+                    outgoing_locales: None,
+                    incoming_locales: None,
+                    offered_capabilities: None,
+                    desired_capabilities: None,
+                    properties: None,
+                }),
+            );
+            let acceptor = ConnectionAcceptor::new("lib-listener");
+            let mut conn = drive(&mut peer, acceptor.accept(a), H).await.ok_or("accept hangs")?.map_err(|e| format!("accept: {e}"))?;
+            peer.send(
+                0,
+                Performative::Begin(Begin {
+                    remote_channel: None,
+                    next_outgoing_id: 0,
+                    incoming_window: 1000,
+                    outgoing_window: 1000,
+                    handle_max: Handle(100),
+                    offered_capabilities: None,
+                    desired_capabilities: None,
+                    properties: None,
+                }),
+            );
+            let mut sess = drive(&mut peer, SessionAcceptor::new().accept(&mut conn), H)
+                .await
+                .ok_or("session accept hangs")?
+                .map_err(|e| format!("session accept: {e}"))?;
+            settle(&mut peer, 1).await;
+            let lib_ch = peer
+                .trace
+                .iter()
+                .find_map(|w| match (&w.body, w.dir) {
+                    (Body::Perf(Performative::Begin(_)), Dirn::FromLib) => Some(w.channel),
+                    _ => None,
+                })
+                .ok_or("the listener sent no begin")?;
+            if let Some(s) = peer.sessions.get_mut(&lib_ch) {
+                s.our_channel = 0;
+                s.incoming_window = 1000;
+                s.outgoing_window = 1000;
+                s.next_outgoing_id = 0;
+            }
+            peer.send(
+                0,
+                Performative::Attach(Attach {
+                    name: "r".into(),
+                    handle: Handle(0),
+                    role: Role::Sender,
+                    snd_settle_mode: SenderSettleMode::Mixed,
+                    rcv_settle_mode: ReceiverSettleMode::First,
+                    source: Some(Box::new(Source::from("q"))),
+                    target: Some(Box::new(Target::from("t").into())),
+                    unsettled: None,
+                    incomplete_unsettled: false,
+                    initial_delivery_count: Some(cfg.idc),
+                    max_message_size: None,
+                    offered_capabilities: None,
+                    desired_capabilities: None,
+                    properties: None,
+                }),
+            );
+            let ep = drive(&mut peer, LinkAcceptor::new().accept(&mut sess), H)
+                .await
+                .ok_or("link accept hangs")?
+                .map_err(|e| format!("link accept: {e}"))?;
+            let LinkEndpoint::Receiver(mut rx) = ep else {
+                return Err("the acceptor returned a sender".into());
+            };
+            settle(&mut peer, 2).await;
+            let lib_handle = peer
+                .trace
+                .iter()
+                .find_map(|w| match (&w.body, w.dir) {
+                    (Body::Perf(Performative::Attach(a)), Dirn::FromLib) => Some(a.handle.0),
+                    _ => None,
+                })
+                .ok_or("the listener sent no attach")?;
+            let mut mon = Mon::new(cfg, lib_ch, lib_handle);
+            // the acceptor's default credit mode is Auto(200) and cannot be configured: its first flow is a grant
+            mon.absorb(&peer.trace, Cause::Grant);
+            // bring the link to the policy under test through the public API
+            match cfg.policy {
+                Policy::Auto(n) => {
+                    drive(&mut peer, rx.set_credit(n), H).await.ok_or("set_credit hangs")?.map_err(|e| format!("set_credit: {e}"))?;
+                    settle(&mut peer, 2).await;
+                    mon.absorb(&peer.trace, Cause::SetCredit(n));
+                }
+                Policy::Manual => {
+                    rx.set_credit_mode(CreditMode::Manual);
+                    drive(&mut peer, rx.set_credit(0), H).await.ok_or("set_credit hangs")?.map_err(|e| format!("set_credit: {e}"))?;
+                    settle(&mut peer, 2).await;
+                    mon.absorb(&peer.trace, Cause::SetCredit(0));
+                }
+            }
+            peer.auto.detach = true;
+            peer.auto.end = true;
+            peer.auto.close = true;
+            let disp = rx.disposer();
+            keep.push(Box::new(sess));
+            keep.push(Box::new(conn));
+            keep.push(Box::new(acceptor));
+            Ok(Harness {
+                cfg,
+                peer,
+                rx,
+                disp,
+                our_ch: 0,
+                our_handle: 0,
+                next_delivery_id: 0,
+                mon,
+                undisposed: vec![],
+                log: vec![],
+                log_cursor: 0,
+                _keep: keep,
+            })
+        }
+    }
+}
+
+impl Harness {
+    fn note(&mut self, s: String) {
+        self.log.push(s);
+    }
+
+    /// copy the link-relevant part of the wire trace into the log
+    fn log_wire(&mut self) {
+        while self.log_cursor < self.peer.trace.len() {
+            let w = &self.peer.trace[self.log_cursor];
+            self.log_cursor += 1;
+            let keep = matches!(
+                &w.body,
+                Body::Perf(Performative::Attach(_))
+                    | Body::Perf(Performative::Flow(_))
+                    | Body::Perf(Performative::Transfer(_))
+                    | Body::Perf(Performative::Disposition(_))
+                    | Body::Perf(Performative::Detach(_))
+                    | Body::Perf(Performative::End(_))
+                    | Body::Perf(Performative::Close(_))
+                    | Body::Undecodable(_)
+            );
+            if keep {
+                self.log.push(format!("    {}", w.short()));
+            }
+        }
+    }
+
+    /// the sender puts one delivery on the wire (in `frames` transfer frames)
+    fn send_delivery(&mut self, frames: u8, settled: bool) -> usize {
+        let seq = self.mon.note_send(frames, settled);
+        let body = payload(seq);
+        let id = self.next_delivery_id;
+        self.next_delivery_id = self.next_delivery_id.wrapping_add(1);
+        let n = frames as usize;
+        let chunk = body.len().div_ceil(n).max(1);
+        for k in 0..n {
+            let lo = (k * chunk).min(body.len());
+            let hi = if k + 1 == n { body.len() } else { ((k + 1) * chunk).min(body.len()) };
+            let t = Transfer {
+                handle: Handle(self.our_handle),
+                delivery_id: Some(id),
+                delivery_tag: Some(serde_bytes::ByteBuf::from(format!("t{seq}").into_bytes())),
+                message_format: Some(0),
+                settled: Some(settled),
+                more: k + 1 < n,
+                rcv_settle_mode: None,
+                state: None,
+                resume: false,
+                aborted: false,
+                batchable: false,
+            };
+            self.peer.send_perf(self.our_ch, Performative::Transfer(t), &body[lo..hi]);
+        }
+        seq
+    }
+
+    /// the sender's own link flow: its delivery-count and the credit it believes it has
+    fn send_sender_flow(&mut self, echo: bool) {
+        let last = self.mon.rflows.last().unwrap().clone();
+        let mut credit = self.mon.snd_credit();
+        if last.drain && credit > 0 {
+            // 2.6.7: "the sender will (after sending all available messages) advance the delivery-count as
+            // much as possible, consuming all link-credit, and send the flow state to the receiver"
+            self.mon.snd_dc = self.mon.snd_dc.wrapping_add(credit);
+            credit = 0;
+        }
+        if self.mon.queued() > 0 {
+            self.mon.cnt.sflows_with_queue += 1;
+            self.mon.sflow_over_queue = true;
+        }
+        let mut f = self.peer.flow_for(self.mon.lib_ch);
+        f.handle = Some(Handle(self.our_handle));
+        f.delivery_count = Some(self.mon.snd_dc);
+        f.link_credit = Some(credit);
+        f.available = Some(0);
+        f.drain = last.drain;
+        f.echo = echo;
+        self.peer.send(self.our_ch, Performative::Flow(f));
+        // this is now the last value the receiver has learnt from the sender
+        self.mon.base_val = self.mon.snd_dc;
+        self.mon.base_sent = self.mon.sent.len();
+        self.mon.base_is_flow = true;
+    }
+
+    async fn quiesce(&mut self, cause: Cause) {
+        settle(&mut self.peer, 2).await;
+        self.mon.absorb(&self.peer.trace, cause);
+        self.log_wire();
+    }
+
+    /// one recv(); returns false when nothing came back
+    async fn recv_once(&mut self) -> bool {
+        let head = self.mon.sent.iter().position(|s| s.st == DState::Queued);
+        let r = drive(&mut self.peer, self.rx.recv::<Value>(), RECV_WAIT).await;
+        match r {
+            Some(Ok(d)) => {
+                let seq = match d.body() {
+                    Value::String(s) => s.strip_prefix('m').and_then(|x| x.parse::<usize>().ok()),
+                    _ => None,
+                };
+                match seq {
+                    Some(i) if i < self.mon.sent.len() => {
+                        self.note(format!("    recv() -> Ok(m{i})"));
+                        self.mon.on_handed(i);
+                        self.undisposed.push((i, DeliveryInfo::from(&d)));
+                    }
+                    _ => {
+                        let b = format!("{:?}", d.body());
+                        self.note(format!("    recv() -> Ok(unknown body {b})"));
+                        self.mon.fail("c2 unknown-delivery-returned", format!("recv() returned a delivery the sender never sent: {b}"));
+                    }
+                }
+                true
+            }
+            Some(Err(e)) => {
+                self.note(format!("    recv() -> Err({e})"));
+                settle(&mut self.peer, 2).await;
+                self.mon.absorb(&self.peer.trace, Cause::Spontaneous);
+                match head {
+                    Some(i) => self.mon.on_refused(i, &e),
+                    None => self.mon.poisoned = true,
+                }
+                true
+            }
+            None => {
+                self.note("    recv() -> pending".into());
+                if let Some(i) = head {
+                    let (any, all) = self.mon.within(i);
+                    if all && !self.mon.poisoned {
+                        self.mon.fail(
+                            "c3 recv-pending-with-delivery-waiting",
+                            format!("delivery m{i} arrived completely and within credit but recv() does not return it"),
+                        );
+                    } else if !any && !self.mon.detach_conditions.iter().any(|c| c.contains("TransferLimitExceeded")) && !self.mon.poisoned {
+                        self.mon.fail(
+                            "c2 overrun-neither-delivered-nor-refused",
+                            format!("delivery m{i} is beyond the credit issued; recv() stays pending and no detach names transfer-limit-exceeded"),
+                        );
+                    }
+                }
+                false
+            }
+        }
+    }
+
+    async fn accept_infos(&mut self, idx: Vec<usize>, how: &str) {
+        let infos: Vec<DeliveryInfo> = idx.iter().map(|i| self.undisposed[*i].1.clone()).collect();
+        let names: Vec<String> = idx.iter().map(|i| format!("m{}", self.undisposed[*i].0)).collect();
+        let r = match how {
+            "all" => drive(&mut self.peer, self.rx.accept_all(infos), H).await.map(|r| r.map_err(|e| e.to_string())),
+            "disposer" => drive(&mut self.peer, self.disp.accept(infos[0].clone()), H).await.map(|r| r.map_err(|e| e.to_string())),
+            _ => drive(&mut self.peer, self.rx.accept(infos[0].clone()), H).await.map(|r| r.map_err(|e| e.to_string())),
+        };
+        self.note(format!("    accept[{how}]({}) -> {:?}", names.join(","), r));
+        let mut idx = idx;
+        idx.sort();
+        for i in idx.into_iter().rev() {
+            self.undisposed.remove(i);
+        }
+    }
+
+    fn enabled(&self, ev: Ev) -> bool {
+        if self.mon.poisoned || self.mon.session_or_connection_ended || !self.mon.detach_conditions.is_empty() {
+            return false;
+        }
+        let credit = self.mon.snd_credit();
+        let queued = self.mon.queued();
+        let und = self.undisposed.len();
+        match ev {
+            Ev::TxOne | Ev::TxMulti | Ev::TxSettled => credit >= 1,
+            Ev::TxLimit => credit >= 2,
+            Ev::TxOver => credit == 0,
+            Ev::SFlow => true,
+            Ev::Recv => queued >= 1,
+            Ev::RecvAll => queued >= 2,
+            Ev::AccOld | Ev::AccDisp => und >= 1,
+            Ev::AccNew | Ev::AccAll => und >= 2,
+            Ev::SetCreditLo | Ev::SetCreditHi | Ev::Drain => self.cfg.policy == Policy::Manual,
+        }
+    }
+
+    /// returns false if the event is not enabled in this state
+    async fn step(&mut self, ev: Ev) -> bool {
+        if !self.enabled(ev) {
+            return false;
+        }
+        self.note(format!("  [{:?}] sender-credit={} waiting={} undisposed={}", ev, self.mon.snd_credit(), self.mon.queued(), self.undisposed.len()));
+        let dispose_cause = match self.cfg.policy {
+            Policy::Auto(_) => Cause::Grant,
+            Policy::Manual => Cause::Spontaneous,
+        };
+        match ev {
+            Ev::TxOne | Ev::TxOver => {
+                self.send_delivery(1, false);
+                self.quiesce(Cause::Spontaneous).await;
+            }
+            Ev::TxLimit => {
+                for _ in 0..self.mon.snd_credit() {
+                    self.send_delivery(1, false);
+                }
+                self.quiesce(Cause::Spontaneous).await;
+            }
+            Ev::TxMulti => {
+                self.send_delivery(3, false);
+                self.quiesce(Cause::Spontaneous).await;
+            }
+            Ev::TxSettled => {
+                self.send_delivery(1, true);
+                self.quiesce(Cause::Spontaneous).await;
+            }
+            Ev::SFlow => {
+                self.send_sender_flow(true);
+                self.quiesce(Cause::Report).await;
+            }
+            Ev::Recv => {
+                self.recv_once().await;
+                self.quiesce(Cause::Spontaneous).await;
+            }
+            Ev::RecvAll => {
+                while self.mon.queued() > 0 && !self.mon.poisoned {
+                    if !self.recv_once().await {
+                        break;
+                    }
+                }
+                self.quiesce(Cause::Spontaneous).await;
+            }
+            Ev::AccOld => {
+                self.accept_infos(vec![0], "one").await;
+                self.quiesce(dispose_cause).await;
+            }
+            Ev::AccDisp => {
+                self.accept_infos(vec![0], "disposer").await;
+                self.quiesce(dispose_cause).await;
+            }
+            Ev::AccNew => {
+                self.mon.cnt.out_of_order_accepts += 1;
+                self.accept_infos(vec![self.undisposed.len() - 1], "one").await;
+                self.quiesce(dispose_cause).await;
+            }
+            Ev::AccAll => {
+                self.accept_infos((0..self.undisposed.len()).collect(), "all").await;
+                self.quiesce(dispose_cause).await;
+            }
+            Ev::SetCreditLo | Ev::SetCreditHi => {
+                let k = if ev == Ev::SetCreditLo { LO } else { HI };
+                let r = drive(&mut self.peer, self.rx.set_credit(k), H).await;
+                self.note(format!("    set_credit({k}) -> {:?}", r.map(|r| r.map_err(|e| e.to_string()))));
+                self.quiesce(Cause::SetCredit(k)).await;
+            }
+            Ev::Drain => {
+                let r = drive(&mut self.peer, self.rx.drain(), H).await;
+                self.note(format!("    drain() -> {:?}", r.map(|r| r.map_err(|e| e.to_string()))));
+                self.quiesce(Cause::Report).await;
+            }
+        }
+        if self.mon.poisoned {
+            // one more recv(): a refused delivery must not come back
+            if self.mon.queued() > 0 {
+                self.recv_once().await;
+            }
+            self.log_wire();
+        }
+        self.obligations();
+        true
+    }
+
+    /// obligations at a quiescent state
+    fn obligations(&mut self) {
+        if self.mon.snd_credit() == 0 && !self.mon.poisoned {
+            self.mon.cnt.limit_reached += 1;
+        }
+        // clause 3 as a safety condition.  Read permissively: credit has to come back only once the
+        // application has received everything that arrived AND disposed of everything it received (an
+        // application that never receives or never disposes is owed nothing: credit is "messages the
+        // receiver can handle"), and only towards a sender that never overran.
+        if let Policy::Auto(n) = self.cfg.policy {
+            if n >= 1 && !self.mon.poisoned && !self.mon.over_sent && self.mon.detach_conditions.is_empty() && !self.mon.session_or_connection_ended {
+                if self.mon.queued() == 0 && self.undisposed.is_empty() {
+                    self.mon.cnt.stall_checks += 1;
+                    if self.mon.snd_credit() == 0 {
+                        let last = self.mon.rflows.last().unwrap().clone();
+                        self.mon.fail(
+                            "c3 auto-credit-stall",
+                            format!(
+                                "Auto({n}): the application has received and disposed of all {} deliveries, yet the sender has no credit \
+                                 (sender delivery-count {}, last receiver flow delivery-count {} credit {}): nobody can make progress",
+                                self.mon.sent.len(),
+                                self.mon.snd_dc,
+                                last.dc,
+                                last.credit
+                            ),
+                        );
+                    }
+                }
+            }
+        }
+    }
+
+    fn state_key(&self) -> u64 {
+        let last = self.mon.rflows.last().unwrap();
+        h64(&(
+            self.cfg,
+            self.mon.snd_credit(),
+            self.mon.queued(),
+            self.undisposed.len(),
+            self.mon.handed,
+            self.mon.poisoned,
+            last.dc.wrapping_sub(self.cfg.idc),
+            last.credit,
+            last.drain,
+            self.rx.credit(),
+            self.mon.rflows.len(),
+            (self.mon.snd_dc.wrapping_sub(self.cfg.idc), self.mon.base_val.wrapping_sub(self.cfg.idc)),
+        ))
+    }
+}
+
+// ------------------------------------------------------------------------------------------------
+// stage 1: history search
+// ------------------------------------------------------------------------------------------------
+
+#[derive(Debug, Clone, Default)]
+pub struct Obs {
+    pub executed: usize,
+    pub setup_error: Option<String>,
+    pub fails: Vec<(String, String)>,
+    pub state_keys: Vec<u64>,
+    pub log: Vec<String>,
+    pub cnt: Counters,
+}
+
+pub async fn scenario(cfg: Cfg, events: Vec<Ev>) -> Obs {
+    let mut obs = Obs::default();
+    let mut h = match setup(cfg).await {
+        Ok(h) => h,
+        Err(e) => {
+            obs.setup_error = Some(e);
+            return obs;
+        }
+    };
+    h.note(format!("{:?} {} initial-delivery-count={}", cfg.side, cfg.policy.name(), cfg.idc));
+    h.log_wire();
+    h.obligations();
+    obs.state_keys.push(h.state_key());
+    for (i, ev) in events.iter().enumerate() {
+        if !h.step(*ev).await {
+            break;
+        }
+        obs.executed = i + 1;
+        obs.state_keys.push(h.state_key());
+    }
+    obs.fails = std::mem::take(&mut h.mon.fails);
+    obs.fails.sort();
+    obs.fails.dedup_by(|a, b| a.0 == b.0);
+    obs.log = std::mem::take(&mut h.log);
+    obs.cnt = h.mon.cnt.clone();
+    obs
+}
+
+fn run_history(cfg: Cfg, evs: Vec<Ev>) -> (HistOut, Counters) {
+    let scen: Scenario<Obs> = {
+        let evs = evs.clone();
+        Arc::new(move || {
+            let evs = evs.clone();
+            Box::pin(scenario(cfg, evs))
+        })
+    };
+    let ex = run_exec(vec![], &RunCfg::none(), &scen);
+    let mut out = HistOut::default();
+    let ctxs = format!("{:?}/{}/idc={}", cfg.side, cfg.policy.name(), cfg.idc);
+    let mut cnt = Counters::default();
+    match ex.out {
+        Some(o) => {
+            out.executed = o.executed;
+            if let Some(e) = o.setup_error {
+                out.machinery = Some(format!("{ctxs}: cannot reach the start state: {e}"));
+            }
+            out.fails = o.fails.into_iter().map(|(s, d)| (s, format!("{ctxs}: {d}"))).collect();
+            out.state_keys = o.state_keys;
+            out.trace = o.log;
+            cnt = o.cnt;
+        }
+        None => {
+            out.executed = evs.len();
+            out.machinery = Some(if ex.watchdog {
+                format!("{ctxs} {:?}: the execution did not finish in real time", evs)
+            } else {
+                format!("{ctxs} {:?}: scenario panicked: {:?}", evs, ex.panics)
+            });
+        }
+    }
+    // panics and busy loops of library tasks are not C09's business: reported as machinery errors
+    if ex.spun {
+        out.machinery = Some(format!("{ctxs} {:?}: some task polled more than 20000 times at one virtual instant", evs));
+    }
+    if let Some(p) = ex.panics.iter().find(|p| !p.contains("vcheck/src")) {
+        if out.machinery.is_none() {
+            out.machinery = Some(format!("{ctxs} {:?}: a library task panicked: {p}", evs));
+        }
+    }
+    (out, cnt)
+}
+
+// ------------------------------------------------------------------------------------------------
+// stage 2: long streams in Auto mode
+// ------------------------------------------------------------------------------------------------
+
+#[derive(Debug, Clone, Copy, PartialEq, Eq, Hash)]
+pub enum Disp {
+    /// accept every delivery right after recv()
+    Each,
+    /// accept every delivery through a ReceiverDisposer
+    EachDisposer,
+    /// collect n deliveries (everything the credit allows), then accept_all
+    BatchFull,
+    /// collect ceil(n/2) deliveries, then accept_all
+    BatchHalf,
+    /// collect two deliveries, accept the newer one, then the older one
+    PairsReversed,
+}
+pub const DISPS: [Disp; 5] = [Disp::Each, Disp::EachDisposer, Disp::BatchFull, Disp::BatchHalf, Disp::PairsReversed];
+
+#[derive(Debug, Clone, Copy, PartialEq, Eq, Hash)]
+pub enum SenderStyle {
+    /// sends all it has credit for, in one go
+    Burst,
+    /// sends one delivery, then lets the application run
+    OneByOne,
+    /// like Burst, and reports its flow state (delivery-count) after each burst
+    BurstWithFlows,
+    /// like Burst, pre-settled deliveries
+    BurstSettled,
+    /// like Burst, every delivery in three frames
+    BurstMulti,
+}
+pub const STYLES: [SenderStyle; 5] = [SenderStyle::Burst, SenderStyle::OneByOne, SenderStyle::BurstWithFlows, SenderStyle::BurstSettled, SenderStyle::BurstMulti];
+
+#[derive(Debug, Clone, Default)]
+pub struct StreamObs {
+    pub setup_error: Option<String>,
+    pub fails: Vec<(String, String)>,
+    pub log: Vec<String>,
+    pub delivered: usize,
+    pub rounds: usize,
+    pub cnt: Counters,
+    pub key: u64,
+}
+
+pub async fn stream(cfg: Cfg, disp: Disp, style: SenderStyle, total: usize) -> StreamObs {
+    let mut o = StreamObs::default();
+    let Policy::Auto(n) = cfg.policy else {
+        o.setup_error = Some("long streams are for Auto policies".into());
+        return o;
+    };
+    let mut h = match setup(cfg).await {
+        Ok(h) => h,
+        Err(e) => {
+            o.setup_error = Some(e);
+            return o;
+        }
+    };
+    h.note(format!("{:?} {} idc={} {:?} {:?} total={total}", cfg.side, cfg.policy.name(), cfg.idc, disp, style));
+    h.log_wire();
+    let batch = match disp {
+        Disp::Each | Disp::EachDisposer => 1,
+        Disp::BatchFull => n as usize,
+        Disp::BatchHalf => (n as usize).div_ceil(2),
+        Disp::PairsReversed => 2,
+    }
+    .max(1);
+    let (frames, settled) = match style {
+        SenderStyle::BurstSettled => (1, true),
+        SenderStyle::BurstMulti => (3, false),
+        _ => (1, false),
+    };
+    let mut rounds = 0usize;
+    loop {
+        rounds += 1;
+        if h.mon.handed >= total && h.undisposed.is_empty() {
+            break;
+        }
+        if rounds > 20 * total + 50 {
+            h.mon.fail("c3 no-termination", "the stream did not finish within the round budget".into());
+            break;
+        }
+        let mut progress = false;
+        // ---- the sender: sends whenever it has credit, never more
+        let remaining = total - h.mon.sent.len();
+        let credit = h.mon.snd_credit() as usize;
+        let k = match style {
+            SenderStyle::OneByOne => credit.min(1),
+            _ => credit,
+        }
+        .min(remaining);
+        if k > 0 {
+            h.note(format!("  [sender] credit={credit} sends {k}"));
+            for _ in 0..k {
+                h.send_delivery(frames, settled);
+            }
+            if style == SenderStyle::BurstWithFlows {
+                h.send_sender_flow(false);
+            }
+            h.quiesce(Cause::Spontaneous).await;
+            progress = true;
+        }
+        if h.mon.snd_credit() == 0 {
+            h.mon.cnt.limit_reached += 1;
+        }
+        // ---- the application: receives what is there, disposes in its discipline
+        while h.mon.queued() > 0 && !h.mon.poisoned {
+            h.note(format!("  [app] recv, waiting={}", h.mon.queued()));
+            if !h.recv_once().await {
+                break;
+            }
+            progress = true;
+            if h.undisposed.len() >= batch {
+                dispose(&mut h, disp).await;
+            }
+            if style == SenderStyle::OneByOne {
+                break;
+            }
+        }
+        if h.mon.poisoned {
+            // recv() refused a delivery of a sender that respected credit: already reported by the monitor
+            // as "c2 within-credit-delivery-refused"; clause 3 is broken by the same fact
+            h.mon.fail(
+                "c3 credit-respecting-sender-refused",
+                format!("Auto({n}): after {} deliveries a sender that never exceeded its credit had a delivery refused", h.mon.handed),
+            );
+            break;
+        }
+        if !progress {
+            // nothing to send, nothing to receive: an application that keeps disposing now disposes of
+            // whatever it still holds (a partial batch) before anybody may call it a stall
+            if !h.undisposed.is_empty() {
+                h.note("  [app] flushes its partial batch".into());
+                dispose(&mut h, disp).await;
+                continue;
+            }
+            h.mon.cnt.stall_checks += 1;
+            let last = h.mon.rflows.last().unwrap().clone();
+            h.mon.fail(
+                "c3 auto-credit-stall",
+                format!(
+                    "Auto({n}), {:?}, {:?}: after {} of {total} deliveries the application has received and disposed of everything, the sender has \
+                     no credit (sender delivery-count {}, last receiver flow delivery-count {} credit {}): the stream stalls",
+                    disp,
+                    style,
+                    h.mon.handed,
+                    h.mon.snd_dc,
+                    last.dc,
+                    last.credit
+                ),
+            );
+            break;
+        }
+    }
+    o.delivered = h.mon.handed;
+    o.rounds = rounds;
+    o.fails = std::mem::take(&mut h.mon.fails);
+    o.fails.sort();
+    o.fails.dedup_by(|a, b| a.0 == b.0);
+    o.cnt = h.mon.cnt.clone();
+    o.key = h64(&(cfg, disp, style, o.delivered, h.mon.rflows.len(), h.mon.rflows.iter().map(|f| (f.dc.wrapping_sub(cfg.idc), f.credit)).collect::<Vec<_>>()));
+    o.log = std::mem::take(&mut h.log);
+    o
+}
+
+async fn dispose(h: &mut Harness, disp: Disp) {
+    let n = h.undisposed.len();
+    if n == 0 {
+        return;
+    }
+    match disp {
+        Disp::Each => {
+            for _ in 0..n {
+                h.accept_infos(vec![0], "one").await;
+                h.quiesce(Cause::Grant).await;
+            }
+        }
+        Disp::EachDisposer => {
+            for _ in 0..n {
+                h.accept_infos(vec![0], "disposer").await;
+                h.quiesce(Cause::Grant).await;
+            }
+        }
+        Disp::BatchFull | Disp::BatchHalf => {
+            if n == 1 {
+                h.accept_infos(vec![0], "one").await;
+            } else {
+                h.accept_infos((0..n).collect(), "all").await;
+            }
+            h.quiesce(Cause::Grant).await;
+        }
+        Disp::PairsReversed => {
+            for _ in 0..n {
+                let last = h.undisposed.len() - 1;
+                if last > 0 {
+                    h.mon.cnt.out_of_order_accepts += 1;
+                }
+                h.accept_infos(vec![last], "one").await;
+                h.quiesce(Cause::Grant).await;
+            }
+        }
+    }
+}
+
+fn run_stream(cfg: Cfg, disp: Disp, style: SenderStyle, total: usize) -> (StreamObs, Option<String>) {
+    let scen: Scenario<StreamObs> = Arc::new(move || Box::pin(stream(cfg, disp, style, total)));
+    let ex = run_exec(vec![], &RunCfg::none(), &scen);
+    let ctxs = format!("{:?}/{}/idc={}/{:?}/{:?}", cfg.side, cfg.policy.name(), cfg.idc, disp, style);
+    let mut mach = None;
+    let o = match ex.out {
+        Some(mut o) => {
+            if let Some(e) = o.setup_error.take() {
+                mach = Some(format!("{ctxs}: cannot reach the start state: {e}"));
+            }
+            for f in o.fails.iter_mut() {
+                f.1 = format!("{ctxs}: {}", f.1);
+            }
+            o
+        }
+        None => {
+            mach = Some(if ex.watchdog {
+                format!("{ctxs}: the execution did not finish in real time")
+            } else {
+                format!("{ctxs}: scenario panicked: {:?}", ex.panics)
+            });
+            StreamObs::default()
+        }
+    };
+    if ex.spun && mach.is_none() {
+        mach = Some(format!("{ctxs}: some task polled more than 20000 times at one virtual instant"));
+    }
+    if let Some(p) = ex.panics.iter().find(|p| !p.contains("vcheck/src")) {
+        if mach.is_none() {
+            mach = Some(format!("{ctxs}: a library task panicked: {p}"));
+        }
+    }
+    (o, mach)
+}
+
+// ------------------------------------------------------------------------------------------------
+// driver
+// ------------------------------------------------------------------------------------------------
+
+struct Plan {
+    cfg: Cfg,
+    alphabet: &'static [Ev],
+    alphabet_name: &'static str,
+    depth: usize,
+}
+
+fn plans(quick: bool) -> Vec<Plan> {
+    let mut v = vec![];
+    let pols = [Policy::Auto(1), Policy::Auto(2), Policy::Auto(3), Policy::Auto(10), Policy::Manual];
+    for p in pols {
+        let deep = matches!(p, Policy::Auto(1) | Policy::Auto(2));
+        let manual = p == Policy::Manual;
+        let (core, core_name): (&'static [Ev], &'static str) = if manual { (&CORE_MANUAL, "manual-core") } else { (&CORE, "core") };
+        // client side, ordinary initial delivery-count
+        let cfg = Cfg { side: Side::Client, policy: p, idc: 5 };
+        if quick {
+            v.push(Plan { cfg, alphabet: &FULL, alphabet_name: "full", depth: if deep { 5 } else { 4 } });
+            v.push(Plan { cfg, alphabet: core, alphabet_name: core_name, depth: if deep { 6 } else { 5 } });
+        } else {
+            v.push(Plan { cfg, alphabet: &FULL, alphabet_name: "full", depth: if deep { 6 } else { 5 } });
+            v.push(Plan { cfg, alphabet: core, alphabet_name: core_name, depth: if deep { 8 } else { 7 } });
+        }
+        // listener side
+        let cfg = Cfg { side: Side::Listener, policy: p, idc: 5 };
+        if quick {
+            v.push(Plan { cfg, alphabet: core, alphabet_name: core_name, depth: 4 });
+        } else {
+            v.push(Plan { cfg, alphabet: &FULL, alphabet_name: "full", depth: 5 });
+        }
+        // the delivery-count wraps around during the history
+        let cfg = Cfg { side: Side::Client, policy: p, idc: u32::MAX - 1 };
+        if quick {
+            v.push(Plan { cfg, alphabet: core, alphabet_name: core_name, depth: 4 });
+        } else {
+            v.push(Plan { cfg, alphabet: core, alphabet_name: core_name, depth: 6 });
+        }
+    }
+    v
+}
+
+pub fn run(ctx: &Ctx) -> Outcome {
     let mut out = Outcome::new("model_checking");
-    out.machinery_errors.push("check C09 is not built yet".into());
+    if let Some(p) = &ctx.replay {
+        return replay(p, out);
+    }
+    let deadline = Instant::now() + Duration::from_secs_f64(ctx.budget_s * 0.9);
+    let mut states = 0u64;
+    let mut transitions = 0u64;
+    let mut executions = 0u64;
+    let mut events = 0u64;
+    let mut pruned = 0u64;
+    let mut truncated = false;
+    let mut samples: Vec<serde_json::Value> = vec![];
+    let mut cnt = Counters::default();
+    let mut bounds = vec![];
+    let mut mach_seen = 0;
+
+    // ---------------------------------------------------------------- stage 2 first (cheap, fixed size)
+    let mut items = vec![];
+    for side in [Side::Client, Side::Listener] {
+        for n in [1u32, 2, 3, 10] {
+            for idc in [5u32, u32::MAX - 3] {
+                if side == Side::Listener && idc != 5 {
+                    continue;
+                }
+                for d in DISPS {
+                    for s in STYLES {
+                        items.push((Cfg { side, policy: Policy::Auto(n), idc }, d, s, (5 * n + 3) as usize));
+                    }
+                }
+            }
+        }
+    }
+    let stream_cases = items.len();
+    let results = par_map(&items, ctx.threads, |_, (cfg, d, s, total)| run_stream(*cfg, *d, *s, *total));
+    let mut stream_keys = std::collections::HashSet::new();
+    let mut stream_delivered = 0u64;
+    for ((cfg, d, s, total), (o, mach)) in items.iter().zip(results) {
+        executions += 1;
+        if let Some(m) = mach {
+            if mach_seen < 5 {
+                out.machinery_errors.push(m);
+            }
+            mach_seen += 1;
+            continue;
+        }
+        stream_keys.insert(o.key);
+        stream_delivered += o.delivered as u64;
+        cnt.add(&o.cnt);
+        transitions += o.rounds as u64;
+        for (sig, detail) in &o.fails {
+            out.violation(
+                sig.clone(),
+                detail.clone(),
+                json!({"kind": "stream", "side": format!("{:?}", cfg.side), "policy": cfg.policy.name(), "idc": cfg.idc, "disp": format!("{:?}", d), "style": format!("{:?}", s), "total": total, "trace": o.log}),
+            );
+        }
+        if samples.is_empty() && o.fails.is_empty() && cfg.policy == Policy::Auto(2) && *d == Disp::PairsReversed {
+            samples.push(json!({"kind": "stream", "case": format!("{:?} Auto(2) {:?} {:?}", cfg.side, d, s), "trace": o.log}));
+        }
+    }
+    states += stream_keys.len() as u64;
+
+    // ---------------------------------------------------------------- stage 1: history search
+    for pl in plans(ctx.quick()) {
+        let cfg = pl.cfg;
+        let alpha = pl.alphabet;
+        let local = std::sync::Mutex::new(Counters::default());
+        let st = search(alpha.len(), pl.depth, ctx.threads, deadline, |h| {
+            let (o, c) = run_history(cfg, h.iter().map(|i| alpha[*i]).collect());
+            local.lock().unwrap().add(&c);
+            o
+        });
+        cnt.add(&local.into_inner().unwrap());
+        executions += st.executions;
+        events += st.events_executed;
+        states += st.distinct_states;
+        transitions += st.distinct_transitions;
+        pruned += st.pruned_disabled;
+        truncated |= st.truncated;
+        bounds.push(format!(
+            "{:?}/{}/idc={:#x}: {} alphabet ({} events) depth {} = {} executions{}",
+            cfg.side,
+            cfg.policy.name(),
+            cfg.idc,
+            pl.alphabet_name,
+            alpha.len(),
+            pl.depth,
+            st.executions,
+            if st.truncated { " (CUT by the budget)" } else { "" }
+        ));
+        for m in st.machinery {
+            if mach_seen < 5 {
+                out.machinery_errors.push(m);
+            }
+            mach_seen += 1;
+        }
+        for (h, sig, detail, trace) in st.violations {
+            // events of the history that were really executed (a disabled event ends a history early)
+            let executed = trace.iter().filter(|l| l.starts_with("  [")).count().min(h.len());
+            let evs: Vec<String> = h[..executed].iter().map(|i| format!("{:?}", alpha[*i])).collect();
+            out.violation(
+                sig,
+                format!("history {:?}: {detail}", evs),
+                json!({"kind": "history", "side": format!("{:?}", cfg.side), "policy": cfg.policy.name(), "idc": cfg.idc, "events": evs, "trace": trace}),
+            );
+        }
+        if samples.len() < 3 {
+            if let Some(t) = st.sample_traces.into_iter().next() {
+                samples.push(json!({"kind": "history", "trace": t}));
+            }
+        }
+    }
+    // keep the smallest witness of every class first (finish() keeps the first of each signature)
+    out.violations.sort_by_key(|v| {
+        let hist = v.replay["events"].as_array().map(|a| a.len()).unwrap_or(1000);
+        let tr = v.replay["trace"].as_array().map(|a| a.len()).unwrap_or(0);
+        (hist, tr)
+    });
+
+    out.set("states", states.max(1));
+    out.set("transitions", transitions.max(1));
+    out.set("traces_validated_against_impl", executions);
+    out.set("executions", executions);
+    out.set("events_executed", events);
+    out.set("branches_ended_by_a_disabled_event", pruned);
+    out.set("stream_cases", stream_cases as u64);
+    out.set("stream_deliveries_returned", stream_delivered);
+    out.set("non_vacuity", cnt.json());
+    out.set("samples", json!(samples));
+    out.set("exhaustive", !truncated);
+    out.set(
+        "bound",
+        format!(
+            "long streams: Auto(n) n in {{1,2,3,10}} x {} disposal disciplines x {} sender styles x initial delivery-count {{5, 2^32-4}} (client) / {{5}} (listener), 5n+3 deliveries each; \
+             histories: {}",
+            DISPS.len(),
+            STYLES.len(),
+            bounds.join("; ")
+        ),
+    );
+    out.set(
+        "rule",
+        "states = distinct canonical observable states at quiescence (policy, sender-side credit, deliveries waiting in the link, deliveries not yet disposed of, deliveries returned, \
+         last receiver flow relative to the initial delivery-count, Receiver::credit(), number of receiver flows, refusal seen); transitions = distinct (state, event, state) triples \
+         of the history search plus the rounds of the long streams; every state is reached by executing the real link, session and connection engines",
+    );
+    out.assume("the scripted sender acts at quiescent points only: a frame it sends has been read by the library before the next event; transfers that wait inside the link until recv() are modelled, frames in flight on the transport are not");
+    out.assume("'received since' (clause 1) passes for any count between 'handed to the application by recv()' and 'arrived on the link': sender's delivery-count minus the deliveries still waiting in the link <= reported delivery-count <= sender's delivery-count");
+    out.assume("'rejecting an overrun as a transfer-limit violation' (clause 2) passes if recv() returns RecvError::TransferLimitExceeded or a detach names amqp:link:transfer-limit-exceeded; a delivery counts as an overrun only if it is outside the limit of every flow issued between its sending and its recv()");
+    out.assume("clause 3 is demanded only of Auto(n), only towards a sender that never exceeded its credit, and only once the application has received everything that arrived and disposed of everything it received");
+    out.assume("the listener's LinkAcceptor has no public credit-mode setting: the accepted receiver (Auto(200)) is brought to the policy under test with set_credit_mode / set_credit before the history starts");
+    out
+}
+
+fn replay(p: &std::path::Path, mut out: Outcome) -> Outcome {
+    let s = std::fs::read_to_string(p).unwrap_or_default();
+    let j: serde_json::Value = serde_json::from_str(&s).unwrap_or_default();
+    let r = &j["replay"];
+    let side = if r["side"] == "Listener" { Side::Listener } else { Side::Client };
+    let Some(policy) = r["policy"].as_str().and_then(Policy::parse) else {
+        out.machinery_errors.push(format!("replay file {} names no policy", p.display()));
+        return out;
+    };
+    let idc = r["idc"].as_u64().unwrap_or(5) as u32;
+    let cfg = Cfg { side, policy, idc };
+    let (fails, trace) = if r["kind"] == "stream" {
+        let d = DISPS.iter().copied().find(|d| format!("{:?}", d) == r["disp"].as_str().unwrap_or("")).unwrap_or(Disp::Each);
+        let st = STYLES.iter().copied().find(|d| format!("{:?}", d) == r["style"].as_str().unwrap_or("")).unwrap_or(SenderStyle::Burst);
+        let total = r["total"].as_u64().unwrap_or(8) as usize;
+        println!("replaying stream {:?} {:?} {:?} total={total}", cfg, d, st);
+        let (o, mach) = run_stream(cfg, d, st, total);
+        if let Some(m) = mach {
+            out.machinery_errors.push(m);
+        }
+        (o.fails, o.log)
+    } else {
+        let evs: Vec<Ev> = r["events"]
+            .as_array()
+            .map(|a| a.iter().filter_map(|x| x.as_str()).filter_map(|n| FULL.iter().copied().find(|e| format!("{:?}", e) == n)).collect())
+            .unwrap_or_default();
+        println!("replaying history {:?} {:?}", cfg, evs);
+        let (o, _) = run_history(cfg, evs);
+        if let Some(m) = o.machinery {
+            out.machinery_errors.push(m);
+        }
+        (o.fails, o.trace)
+    };
+    for l in &trace {
+        println!("  {l}");
+    }
+    for (s, d) in fails {
+        println!("  FAIL {s}: {d}");
+        out.violation(s, d, r.clone());
+    }
+    out.set("states", 1);
+    out.set("transitions", 1);
+    out.set("traces_validated_against_impl", 1);
+    out.set("samples", json!([r]));
     out
 }
